@@ -19,11 +19,11 @@ ENTRY = dict(
                 "in a third of the paired runs (the monitor / relay held for 20 ms at their subscribe points). Two "
                 "concurrent activations of one sub-process node are outside the model (such runs are skipped and counted)."),
     technique="Lean 4 proof (engine-model lemma + kernel-checked witnesses) + paired wrapped/inlined lock-step replay",
-    lean_modules=["Bpmn.Props.C12", "Bpmn.Props.C12Current", "Bpmn.Props.EngineCurrent", "Bpmn.Props.C12Steps"],
+    lean_modules=["Bpmn.Props.C12", "Bpmn.Props.C12Current", "Bpmn.Props.EngineCurrent", "Bpmn.Props.C12Steps", "Bpmn.Props.C12Nest"],
     harness_files=["c03.go"],
-    families=["c12", "c12fork"],
+    families=["c12", "c12fork", "c12nest"],
     facts_from=["Engine", "C12", "C02"],
-    rule=("c12fork: a sub-process whose content forks WITHOUT joining (2..3 inner tasks behind a parallel gateway or an activity with several outgoing flows, running into one shared inner end event or one each; also nested in another sub-process), every order of answering the inner tasks: the task behind the sub-process is requested once, after the last inner answer; pairs of runs of one seeded block-structured program (tasks, seq, exclusive, parallel, loops, sub blocks; <= 12 "
+    rule=("c12nest: the program family of Props/C12Nest (nestProc d, same element names) run by the real engine at depth 1..10 (thorough: 16, 24, 32 too), compared step by step with the model's run of nestProc d at the extracted configuration; c12fork: a sub-process whose content forks WITHOUT joining (2..3 inner tasks behind a parallel gateway or an activity with several outgoing flows, running into one shared inner end event or one each; also nested in another sub-process), every order of answering the inner tasks: the task behind the sub-process is requested once, after the last inner answer; pairs of runs of one seeded block-structured program (tasks, seq, exclusive, parallel, loops, sub blocks; <= 12 "
           "nodes quick, <= 20 thorough; each sub block wrapped in 1..3 nested sub-processes vs inlined), identical variables "
           "and answer order (pending requests sorted by name, seeded choice); non-trivial = the program contains a "
           "sub-process and both runs were judged without finding; distinct by program and history"),
